@@ -4,6 +4,7 @@ import (
 	"fmt"
 	"go/types"
 	"regexp"
+	"sort"
 	"strconv"
 	"strings"
 )
@@ -30,6 +31,18 @@ func init() {
 			e.assertTerm(a[0].(*Term), a[1].(Str).s)
 			return nil
 		},
+		pp + "verifMonitorAssert": func(e *Exec, a []Value) Value {
+			c := a[0].(*Term)
+			e.obligations++
+			if !c.IsConst() {
+				e.cut("verifMonitorAssert: condition must be concrete")
+			}
+			if c.V == 0 {
+				e.fail("monitor:"+a[1].(Str).s, nil)
+			}
+			e.discharged++
+			return nil
+		},
 		pp + "verifEpoch": func(e *Exec, a []Value) Value { e.epoch++; return nil },
 		pp + "verifObserve": func(e *Exec, a []Value) Value {
 			v := a[1]
@@ -49,7 +62,43 @@ func init() {
 		pp + "verifKnown":         func(e *Exec, a []Value) Value { return Bool(e.known[a[0].(Str).s]) },
 		pp + "verifSharedWrites":  func(e *Exec, a []Value) Value { return Const(64, uint64(e.sharedTotal())) },
 		pp + "verifEnvAccesses":   func(e *Exec, a []Value) Value { return Const(64, uint64(e.envTotal())) },
-		pp + "verifUnlockedCache": func(e *Exec, a []Value) Value { return Const(64, uint64(e.unlockedCache)) },
+		pp + "verifUnlockedCache": func(e *Exec, a []Value) Value {
+			n := 0
+			for _, c := range e.unlockedAccessesToWrittenMaps() {
+				n += c
+			}
+			return Const(64, uint64(n))
+		},
+		pp + "verifLocksHeld":  func(e *Exec, a []Value) Value { return Const(64, uint64(e.held)) },
+		pp + "verifLockEvents": func(e *Exec, a []Value) Value { return Const(64, uint64(e.lockEvents)) },
+		// verifMonitor(what): engine-side obligation over the monitor streams since the last epoch
+		pp + "verifMonitor": func(e *Exec, a []Value) Value {
+			what := a[0].(Str).s
+			e.obligations++
+			var bad map[string]int
+			var msg string
+			switch what {
+			case "no-shared-writes":
+				bad, msg = e.sharedWrites, "unsynchronised write to state shared between executions"
+			case "no-env-access":
+				bad, msg = e.envAccess, "direct access to the environment (OS/clock) bypassing the loaders"
+			case "maps-locked":
+				bad, msg = e.unlockedAccessesToWrittenMaps(), "shared map that is written during execution accessed without holding a lock"
+			default:
+				e.cut("verifMonitor: unknown monitor " + what)
+			}
+			if len(bad) == 0 {
+				e.discharged++
+				return nil
+			}
+			var sites []string
+			for s := range bad {
+				sites = append(sites, shortSite(s))
+			}
+			sort.Strings(sites)
+			e.fail("monitor:"+msg+" at "+strings.Join(sites, "; "), nil)
+			return nil
+		},
 
 		"strings.HasPrefix": func(e *Exec, a []Value) Value {
 			s, p := a[0].(Str), a[1].(Str)
@@ -169,6 +218,8 @@ func init() {
 				e.gopanic("deadlock: Lock of locked mutex (single goroutine)")
 			}
 			st[0] = Const(32, 1)
+			e.held++
+			e.lockEvents++
 			return nil
 		},
 		"(*sync.Mutex).Unlock": func(e *Exec, a []Value) Value {
@@ -178,6 +229,7 @@ func init() {
 				e.gopanic("sync: unlock of unlocked mutex")
 			}
 			st[0] = Const(32, 0)
+			e.held--
 			return nil
 		},
 		"fmt.Errorf": func(e *Exec, a []Value) Value {
@@ -321,4 +373,10 @@ func (e *Exec) observedEval() []string {
 		}
 	}
 	return out
+}
+
+func shortSite(s string) string {
+	s = strings.ReplaceAll(s, "/repo/", "")
+	s = strings.ReplaceAll(s, "github.com/flosch/pongo2/v6.", "")
+	return s
 }
